@@ -92,7 +92,24 @@ func buildFields(rt reflect.Type, u byte, omitEmpty bool) (fa []*finfo) {
 	return
 }
 
-func buildTagFields(rt reflect.Type, nested, omitEmpty bool) (fa []*finfo) {
+// embeddedIn reports whether rt is one of the types the field builders are
+// inside of. A type that embeds (a pointer to) itself, or two types that embed
+// each other, is not entered again: Go promotes the shallowest field of a
+// name, so the inner occurrence adds nothing.
+func embeddedIn(rt reflect.Type, outer []reflect.Type) bool {
+	for _, ot := range outer {
+		if ot == rt {
+			return true
+		}
+	}
+	return false
+}
+
+func buildTagFields(rt reflect.Type, nested, omitEmpty bool, outer ...reflect.Type) (fa []*finfo) {
+	if embeddedIn(rt, outer) {
+		return nil
+	}
+	outer = append(outer, rt)
 	for i := rt.NumField() - 1; 0 <= i; i-- {
 		f := rt.Field(i)
 		name := []byte(f.Name)
@@ -102,14 +119,14 @@ func buildTagFields(rt reflect.Type, nested, omitEmpty bool) (fa []*finfo) {
 		var fx byte
 		if f.Anonymous && nested {
 			if f.Type.Kind() == reflect.Ptr {
-				for _, fi := range buildTagFields(f.Type.Elem(), nested, omitEmpty) {
+				for _, fi := range buildTagFields(f.Type.Elem(), nested, omitEmpty, outer...) {
 					fi.index = append([]int{i}, fi.index...)
 					fi.ivalue = skipNilEmbedded(fi.ivalue)
 					fi.value = fi.ivalue
 					fa = append(fa, fi)
 				}
 			} else {
-				for _, fi := range buildTagFields(f.Type, nested, omitEmpty) {
+				for _, fi := range buildTagFields(f.Type, nested, omitEmpty, outer...) {
 					fi.index = append([]int{i}, fi.index...)
 					fi.offset += f.Offset
 					fa = append(fa, fi)
@@ -146,7 +163,11 @@ func buildTagFields(rt reflect.Type, nested, omitEmpty bool) (fa []*finfo) {
 	return
 }
 
-func buildExactFields(rt reflect.Type, nested, omitEmpty bool) (fa []*finfo) {
+func buildExactFields(rt reflect.Type, nested, omitEmpty bool, outer ...reflect.Type) (fa []*finfo) {
+	if embeddedIn(rt, outer) {
+		return nil
+	}
+	outer = append(outer, rt)
 	for i := rt.NumField() - 1; 0 <= i; i-- {
 		f := rt.Field(i)
 		name := []byte(f.Name)
@@ -156,14 +177,14 @@ func buildExactFields(rt reflect.Type, nested, omitEmpty bool) (fa []*finfo) {
 		switch {
 		case f.Anonymous && nested:
 			if f.Type.Kind() == reflect.Ptr {
-				for _, fi := range buildExactFields(f.Type.Elem(), nested, omitEmpty) {
+				for _, fi := range buildExactFields(f.Type.Elem(), nested, omitEmpty, outer...) {
 					fi.index = append([]int{i}, fi.index...)
 					fi.ivalue = skipNilEmbedded(fi.ivalue)
 					fi.value = fi.ivalue
 					fa = append(fa, fi)
 				}
 			} else {
-				for _, fi := range buildExactFields(f.Type, nested, omitEmpty) {
+				for _, fi := range buildExactFields(f.Type, nested, omitEmpty, outer...) {
 					fi.index = append([]int{i}, fi.index...)
 					fi.offset += f.Offset
 					fa = append(fa, fi)
@@ -178,7 +199,11 @@ func buildExactFields(rt reflect.Type, nested, omitEmpty bool) (fa []*finfo) {
 	return
 }
 
-func buildLowFields(rt reflect.Type, nested, omitEmpty bool) (fa []*finfo) {
+func buildLowFields(rt reflect.Type, nested, omitEmpty bool, outer ...reflect.Type) (fa []*finfo) {
+	if embeddedIn(rt, outer) {
+		return nil
+	}
+	outer = append(outer, rt)
 	for i := rt.NumField() - 1; 0 <= i; i-- {
 		f := rt.Field(i)
 		name := []byte(f.Name)
@@ -187,14 +212,14 @@ func buildLowFields(rt reflect.Type, nested, omitEmpty bool) (fa []*finfo) {
 		}
 		if f.Anonymous && nested {
 			if f.Type.Kind() == reflect.Ptr {
-				for _, fi := range buildLowFields(f.Type.Elem(), nested, omitEmpty) {
+				for _, fi := range buildLowFields(f.Type.Elem(), nested, omitEmpty, outer...) {
 					fi.index = append([]int{i}, fi.index...)
 					fi.ivalue = skipNilEmbedded(fi.ivalue)
 					fi.value = fi.ivalue
 					fa = append(fa, fi)
 				}
 			} else {
-				for _, fi := range buildLowFields(f.Type, nested, omitEmpty) {
+				for _, fi := range buildLowFields(f.Type, nested, omitEmpty, outer...) {
 					fi.index = append([]int{i}, fi.index...)
 					fi.offset += f.Offset
 					fa = append(fa, fi)
